@@ -6,6 +6,7 @@ CONSTANTS
   ClearChoices = {TRUE, FALSE}
   Installs = {TRUE}
   ResetsResult = TRUE
+  RunBound = TRUE
   LateIgnored = TRUE
 CONSTRAINT ExportC
 INVARIANT ResultRight
@@ -14,4 +15,5 @@ INVARIANT ReactorClean
 INVARIANT Restored
 INVARIANT SecondRun
 INVARIANT NeverStuck
+INVARIANT SpinnerIdle
 CHECK_DEADLOCK FALSE
